@@ -54,6 +54,44 @@ func Gen(text string, opt int, pkg string) (out []byte, phase string, err error)
 	return buf.Bytes(), "", nil
 }
 
+// GenFiles materialises the given schema files in a scratch directory and generates root with the option set, in combined
+// (or separate) import mode.
+func GenFiles(files map[string]string, root string, opt int, pkg string, combined bool) (out []byte, phase string, err error) {
+	defer func() {
+		if r := recover(); r != nil {
+			phase, err = "panic", fmt.Errorf("panic: %v", r)
+		}
+	}()
+	dir, derr := os.MkdirTemp("", "verif-files-")
+	if derr != nil {
+		vlib.Fatal("%v", derr)
+	}
+	defer os.RemoveAll(dir)
+	for n, t := range files {
+		p := filepath.Join(dir, n)
+		os.MkdirAll(filepath.Dir(p), 0o755)
+		if werr := os.WriteFile(p, []byte(t), 0o644); werr != nil {
+			vlib.Fatal("%v", werr)
+		}
+	}
+	f, _, err := bebop.ReadFile(strings.NewReader(files[root]))
+	if err != nil {
+		return nil, "readfile", err
+	}
+	f.FileName = filepath.Join(dir, root)
+	st := driver.Settings(opt)
+	st.PackageName = pkg
+	st.ImportGenerationMode = bebop.ImportGenerationModeSeparate
+	if combined {
+		st.ImportGenerationMode = bebop.ImportGenerationModeCombined
+	}
+	var buf bytes.Buffer
+	if err := f.Generate(&buf, st); err != nil {
+		return nil, "generate", err
+	}
+	return buf.Bytes(), "", nil
+}
+
 // Batch is one generated package.
 type Batch struct {
 	Opt   int
